@@ -6,7 +6,7 @@ from __future__ import annotations
 import typing
 
 from .. import vrt
-from ..chx.api import P, harness, ladder, shard
+from ..chx.api import P, concrete, harness, ladder, shard
 from .common import CONN_TYPES, Setup
 
 STUBS = (
@@ -67,13 +67,15 @@ def fault(k: int, kind: int, drop: bool) -> None:
     pre: 0 <= kind <= 2
     post: _
     """
-    su = Setup(shard("ct", "h11"), shard("flavour", "sync") == "async",
-               fault_k=k, fault_kind=kind, max_connections=2)
-    _exchange(su, drop)
-    su.quiescent_slot_oracle()
-    su.stream_oracle()
-    su.probe_capacity(2)
-    su.closed_pool_oracle()
+    k, kind, drop = ladder(k, 0, 40), ladder(kind, 0, 2), bool(drop)
+    with concrete(k, kind, drop):
+        su = Setup(shard("ct", "h11"), shard("flavour", "sync") == "async",
+                   fault_k=k, fault_kind=kind, max_connections=2)
+        _exchange(su, drop)
+        su.quiescent_slot_oracle()
+        su.stream_oracle()
+        su.probe_capacity(2)
+        su.closed_pool_oracle()
 
 
 @harness(
@@ -94,6 +96,12 @@ def cancel(c: int, one_shot: bool, drop: bool) -> None:
     pre: 0 <= c <= 60
     post: _
     """
+    c, one_shot, drop = ladder(c, 0, 60), bool(one_shot), bool(drop)
+    with concrete(c, one_shot, drop):
+        _cancel(c, one_shot, drop)
+
+
+def _cancel(c: int, one_shot: bool, drop: bool) -> None:
     from .. import scen
 
     su = Setup(shard("ct", "h11"), True, max_connections=2)
